@@ -25,6 +25,12 @@ theorem facts_no_field_writes : Generated.keeperFieldWrites = [("SetTestAccountK
 /-- no package-level variables in `keeper` and `module` -/
 theorem facts_no_globals : Generated.packageVars = [] := by decide
 
+/-- InitGenesis writes the three items from the genesis file and constants only (no clock, no environment); ExportGenesis
+    returns the stored list as it is -/
+theorem facts_genesis :
+    Generated.initGenesisCalls = ["k.PendingValidators.Set", "k.CachedBlockPower.Set", "k.AbsoluteChangedInBlockPower.Set"] ∧
+    Generated.exportGenesisCalls = ["k.PendingValidators.Get", "k.PendingValidators.Get(ctx)", "return &poa.GenesisState{ Vals: vals.Validators, }"] := by decide
+
 theorem facts_prefixes : Generated.storePrefixes =
     [("ParamsKey", "0"), ("PendingValidatorsKey", "1"), ("CachedPreviousBlockPowerKey", "2"), ("AbsoluteChangedInBlockPowerKey", "3"), ("UpdatedValidatorsCacheKey", "4")] := by decide
 
